@@ -149,8 +149,11 @@ class CosimEngine(Engine):
     stub_components = ['LAMMPS executable (FakeLammps behind atomman.lammps.run.subprocess)', 'its stdio buffer and the instant it dies',
                        'the caller (order of invocations, reads, flattens)', 'the reader source object (short reads)']
     assumptions = ['FakeLammps is written from the documented log layout; no LAMMPS binary exists in the sandbox to validate it',
-                   'the last line of a file that is not newline-terminated is in flight: its row may be absent or present with '
-                   'whatever its tokens parse to; a block whose header line is in flight may be absent',
+                   'the last line of a file that is not newline-terminated is in flight: its row may be absent; if it is shown, each '
+                   'cell is the value LAMMPS was printing (the simulator knows the unfinished line) or missing, never another number; '
+                   'a block whose header line is in flight may be absent; a fragment of a multi-byte character belongs to that line',
+                   'a read that raised (EIO, unopenable source) leaves the old records, or the old records plus a correct prefix of '
+                   'the new ones, or - for append=False - nothing; a pathlib.Path that names no file must be refused',
                    'a version banner that is itself in flight (no newline) is not a banner: it must leave the version unset',
                    'after reads of logs with different banners any of the versions seen is accepted (the statement does not say which)',
                    'flatten first/last is checked on every selection of runs for which the documented shortcut (rows beyond the last '
